@@ -27,7 +27,12 @@ def pools(tier):
             {"t": "set", "e": [V.vint(1), V.vint(2)]}, {"t": "set", "e": []}, {"t": "set", "e": [V.vstr("a"), V.vstr("b")]},
             {"t": "syn", "n": 1}, {"t": "syn", "n": 3}, {"t": "syn", "n": 4}, V.vgn(0), V.vgn(1),
             V.vlist(V.vgn(0), {"t": "syn", "n": 1}), V.vlist({"t": "syn", "n": 3}), V.vlist({"t": "syn", "n": 4}),
-            {"t": "set", "e": [{"t": "syn", "n": 3}, {"t": "syn", "n": 4}]}, {"t": "set", "e": [V.vint(1), V.vstr("a")]}]
+            {"t": "set", "e": [{"t": "syn", "n": 3}, {"t": "syn", "n": 4}]}, {"t": "set", "e": [V.vint(1), V.vstr("a")]},
+            # sets of syntax nodes are written in the order of their places in the source (start, then end): argument list (1, 6) and
+            # attribute (1, 1); identifiers at columns 3, 1 and 5; same place, other kind (expression statement and call): not decided
+            {"t": "set", "e": [{"t": "syn", "n": 12}, {"t": "syn", "n": 5}]},
+            {"t": "set", "e": [{"t": "syn", "n": 9}, {"t": "syn", "n": 7}, {"t": "syn", "n": 11}, V.vint(3)]},
+            {"t": "set", "e": [{"t": "syn", "n": 2}, {"t": "syn", "n": 3}]}]
     core = [V.vnull(), V.vbool(True), V.vint(1), V.vint(U32MAX), V.vstr("a"), V.vstr("{}{}"), V.vstr("a{}b"), V.vstr("/"), V.vstr(""), V.vstr("^$"), V.vstr("$"), V.vstr("é{}中{}"),
             V.vlist(V.vstr("a"), V.vstr("b")), V.vlist(), {"t": "syn", "n": 3}, V.vgn(0)]
     core4 = [V.vbool(False), V.vint(2), V.vint(U32MAX), V.vstr("{}-{}-{}"), V.vstr("x"), V.vlist(V.vint(7))]
@@ -116,7 +121,7 @@ def run(tier):
            "table": counts, "exhaustive": True, "pool_sizes": {k: len(v) for k, v in pool.items() if isinstance(v, list)}}
     return V.finish("model_checking", cov, [
         "`replace` is specified for literal patterns and $-free replacements only (beyond that the contract is the regex crate's)",
-        "text of sets whose order depends on string or syntax-node comparison is not decided by the specification (skipped)",
+        "text of sets whose order depends on string comparison, or on the order of two syntax nodes of one place, is not decided by the specification (skipped)",
         "syntax-node facts (text, type, positions, named children) are tree-sitter's, extracted independently of the library"])
 
 
